@@ -127,6 +127,9 @@ def run_case(case, ctx):
     if long_:
         pool = ids_present + [max(ids_present) + 5]
         subsets = [pool[::3], pool[1::4][::-1], [pool[-1]], []]
+    # absent ids outside the range of the vector's dtype must stay absent (no wrap-around)
+    p0 = ids_present[0]
+    subsets = subsets + [[65536 + p0], [2 ** 32 + p0, ids_present[-1]], [-1], [p0 - 65536, -(2 ** 32) + p0]]
     rng = np.random.default_rng(case['rot'])
     for sub in subsets:
         sub = list(sub)
@@ -198,6 +201,24 @@ def _model_case(case, ctx):
             if not rr.ok or same(rr.value, exp, dtype=False):
                 ctx.violation('model_query', case, 'get_template_counts(%d) -> %r, expected %r' % (
                     c, rr.value if rr.ok else rr.exc, exp), {'model': True}, tb=rr.tb)
+        # history: the in-memory assignment is updated in place (manual clustering), then queried again
+        ids = np.unique(sc)
+        new_id = int(sc.max()) + 2
+        sel = np.isin(sc, ids[:2])
+        rr = call(lambda: m.spike_clusters.__setitem__(sel, new_id))
+        sc2 = sc.copy()
+        sc2[sel] = new_id
+        if rr.ok:
+            for c in sorted(set(ids[:2].tolist() + [new_id, int(ids[-1])])):
+                rr = call(m.get_cluster_spikes, c)
+                if not rr.ok or same(rr.value, np.nonzero(sc2 == c)[0], dtype=False):
+                    ctx.violation('model_query', case, 'after an in-place update of spike_clusters, get_cluster_spikes(%d) -> %r' % (
+                        c, rr.value if rr.ok else rr.exc), {'model': True, 'after_inplace_update': True}, tb=rr.tb)
+                rr = call(m.get_template_counts, c)
+                exp = np.bincount(st[sc2 == c].astype(np.int64), minlength=spec.n_templates)
+                if not rr.ok or same(rr.value, exp, dtype=False):
+                    ctx.violation('model_query', case, 'after an in-place update, get_template_counts(%d) -> %r' % (
+                        c, rr.value if rr.ok else rr.exc), {'model': True, 'after_inplace_update': True}, tb=rr.tb)
         call(m.close)
     finally:
         shutil.rmtree(d, ignore_errors=True)
